@@ -21,7 +21,7 @@ TILTS = {"level": (1, 0, 0, 0), "inverted": (0, 1, 0, 0), "x-up": (1, 0, 1, 0), 
          # pure pitch / pure roll sweeps: one body axis stays exactly horizontal (a_y = 0 resp. a_x = 0) while the other two sweep the circle
          "pitched": [(2, 0, 1, 0), (3, 0, 1, 0), (5, 0, 2, 0), (4, 0, -1, 0), (7, 0, 3, 0), (3, 0, -2, 0), (1, 0, 2, 0), (1, 0, -3, 0), (9, 0, 1, 0), (2, 0, 5, 0)],
          "rolled": [(2, 1, 0, 0), (3, 1, 0, 0), (5, 2, 0, 0), (4, -1, 0, 0), (7, 3, 0, 0), (3, -2, 0, 0), (1, 2, 0, 0), (1, -3, 0, 0), (9, 1, 0, 0), (2, 5, 0, 0)]}
-HIST_CLASSES = ["random", "decades", "level", "inverted", "x-up", "x-down", "y-up", "y-down", "inverted-y", "pitched", "rolled"]
+HIST_CLASSES = ["random", "decades", "level", "inverted", "x-up", "x-down", "y-up", "y-down", "inverted-y", "pitched", "rolled", "level-then-inverted"]
 
 
 STREAM_BOTH = {
@@ -42,7 +42,7 @@ def pose_history(kind, conv, n):
     acc, mag = [], []
     for k in range(n):
         hd = HEADINGS[k % len(HEADINGS)]
-        tilt = TILTS[kind]
+        tilt = TILTS[kind] if kind != "level-then-inverted" else (TILTS["level"] if k == 0 else TILTS["inverted"])
         if isinstance(tilt, list):
             tilt = tilt[(k // 2) % len(tilt)]
         u = qmul_int((hd[0], 0, 0, hd[1]), tilt)       # heading about z, then the tilt
@@ -153,7 +153,7 @@ def run_cfg(args):
 
 def run(chk):
     quick = chk.tier == "quick"
-    chk.rule = ("every configuration of the TLC-enumerated catalogue x 12 history classes (seeded random, magnitudes over decades, a sweep of the acc/mag mutual angle over (1, 179) degrees in 0.1 / 0.05 degree steps, 7 "
+    chk.rule = ("every configuration of the TLC-enumerated catalogue x 13 history classes (seeded random, magnitudes over decades, a sweep of the acc/mag mutual angle over (1, 179) degrees in 0.1 / 0.05 degree steps, 7 "
                 "exact canonical pose families and pure-pitch / pure-roll sweeps at 12 headings in 2 measurement conventions; recursive "
                 "filters additionally serve one IMU and one MARG update on the batch-built object) x lengths; distinct = distinct "
                 "(configuration, history class, length, variant); all non-trivial (no identity-only histories)")
